@@ -70,7 +70,8 @@ def run_property(prop: str, tier: str, root: str, seed: int, write_evidence: boo
                 )
                 for n in one.notes:
                     out(f"[{prop}]   note: {n}")
-                if one.instances < one.floor:
+                if one.instances < one.floor and not [f for f in one.findings if not f.advisory]:
+                    # (a rule that already reports a violation explains its own shortfall)
                     raise AnalysisError(
                         f"rule {one.rule}: only {one.instances} instances found, floor is {one.floor} — anchors moved or checker blind"
                     )
@@ -87,7 +88,7 @@ def run_property(prop: str, tier: str, root: str, seed: int, write_evidence: boo
                     )
                     for n in one.notes:
                         out(f"[{prop}]   note: {n}")
-                    if one.instances < one.floor:
+                    if one.instances < one.floor and not [f for f in one.findings if not f.advisory]:
                         raise AnalysisError(f"rule {one.rule}: only {one.instances} instances, floor {one.floor}")
     except AnalysisError as e:
         print(f"ANALYSIS-ERROR property={prop} {e}")
